@@ -148,6 +148,11 @@ def encode_inventory(ctx, rep):
     inst = duration_instances(ctx)
 
     def extra(s):
+        if s["fn"] == "insim::net::codec::Codec::encode" and s["kind"] == "precondition" and s["what"].endswith("index_mut"):
+            r34 = [i for i in rep.instances if i["rule"] == "R3.4"]
+            if r34 and all(i["ok"] for i in r34):
+                return "index 0 of the frame buffer, which holds at least the placeholder byte written first (R3.4 placeholder / order / patch-at-0)"
+            return None
         if s["fn"] == "insim_core::duration::binrw_write_duration" and s["kind"] == "assert" and s["what"] == "div_zero":
             scales = {sc for (_t, sc) in inst}
             if scales and all(sc.isdigit() and int(sc) > 0 for sc in scales):
@@ -161,7 +166,29 @@ def encode_inventory(ctx, rep):
     rep.floor("R3.5", 20)
 
 
+def const_array_len(ctx, o):
+    """number of elements of a constant array operand (a literal `[0]`, a promoted constant or a named `const X: [u8; N]`), else None"""
+    x = strip_refs(o)
+    while x[0] == "cast":
+        x = strip_refs(x[4])
+    if x[0] == "agg" and x[1][0] == "array":
+        return len(x[2]), [e[1] if e[0] == "const" else None for e in x[2]]
+    if x[0] == "const" and isinstance(x[3], str):
+        m = re.match(r"^&?\[[^;\]]+; (\d+)\]$", x[3].strip())
+        if m:
+            vals = None
+            if isinstance(x[2], str) and "::" in x[2]:
+                cs = ctx.ast.const(x[2].split("::")[-1])
+                if len(cs) == 1 and cs[0][3]["value"].get("elems") is not None:
+                    vals = [int(e["v"]) if e.get("t") == "int" else None for e in cs[0][3]["value"]["elems"]]
+            return int(m.group(1)), vals
+    return None
+
+
 def encode_order(ctx, rep):
+    """R3.4: one placeholder byte first, then the packet, then the length taken from the same buffer, then the byte that
+    encode_length returned stored at index 0 of that buffer - either by rewinding the cursor and writing one byte, or by
+    `data[0] = n` on the buffer taken out of the cursor."""
     b = ctx.mir.body("insim::net::codec::Codec::encode")
     if b is None:
         rep.fail("R3.4", "found", "Codec::encode not found")
@@ -175,9 +202,14 @@ def encode_order(ctx, rep):
     SP = b.calls_to(r"Cursor::<T>::set_position$")
     WA = b.calls_to(r"^std::io::Write::write_all$")
     INTO = b.calls_to(r"Cursor::<T>::into_inner$")
-    ok = all(len(x) == 1 for x in (cur, W0, P, POS, EL, SP, WA, INTO))
-    rep.check("R3.4", "anchors", ok, "Codec::encode: expected exactly one each of Cursor::new, Write::write (placeholder), Packet::write, position, encode_length, set_position, write_all, into_inner; found %s"
-              % [len(x) for x in (cur, W0, P, POS, EL, SP, WA, INTO)], b.loc(), sample={"counts": [len(x) for x in (cur, W0, P, POS, EL, SP, WA, INTO)]})
+    IDX = b.calls_to(r"IndexMut::index_mut$")
+    base_ok = all(len(x) == 1 for x in (cur, W0, P, POS, EL, INTO))
+    form_a = base_ok and len(SP) == 1 and len(WA) == 1 and not IDX
+    form_b = base_ok and not SP and not WA and len(IDX) == 1
+    ok = form_a or form_b
+    rep.check("R3.4", "anchors", ok, "Codec::encode: expected one each of Cursor::new, Write::write (placeholder), Packet::write, position, encode_length, into_inner and a patch of byte 0 "
+              "(set_position + write_all, or index 0 of the buffer); found %s" % [len(x) for x in (cur, W0, P, POS, EL, SP, WA, INTO, IDX)], b.loc(),
+              sample={"counts": [len(x) for x in (cur, W0, P, POS, EL, SP, WA, INTO, IDX)], "patch": "rewind+write" if form_a else "index" if form_b else "?"})
     if not ok:
         return
     cbb = cur[0][0]
@@ -185,17 +217,21 @@ def encode_order(ctx, rep):
     def on_cursor(t, i=0):
         return any(c[4] == cbb for c in origin_calls(b.origin(t["args"][i])))
 
-    same = all(on_cursor(t) for _bb, t in (W0[0], POS[0], SP[0], WA[0], INTO[0])) and on_cursor(P[0][1], 1)
-    rep.check("R3.4", "one-buffer", same, "placeholder, packet, position, patch and into_inner must all act on the same cursor", b.loc())
-    # placeholder: one zero byte
-    po = strip_refs(b.origin(W0[0][1]["args"][1]))
-    while po[0] == "cast":
-        po = strip_refs(po[4])
-    okp = po[0] == "agg" and po[1][0] == "array" and len(po[2]) == 1 and po[2][0][0] == "const" and po[2][0][1] == 0
-    rep.check("R3.4", "placeholder", okp, "the size placeholder must be exactly one zero byte written first (found %s)" % fmt_origin(po), b.loc(W0[0][1]["line"]), sample={"placeholder": fmt_origin(po)})
-    order = [W0[0][0], P[0][0], POS[0][0], EL[0][0], SP[0][0], WA[0][0], INTO[0][0]]
+    users = [W0[0], POS[0], INTO[0]] + ([SP[0], WA[0]] if form_a else [IDX[0]])
+    same = all(on_cursor(t) for _bb, t in users) and on_cursor(P[0][1], 1)
+    rep.check("R3.4", "one-buffer", same, "placeholder, packet, position, patch and into_inner must all act on the same cursor / its buffer", b.loc())
+    # placeholder: exactly one byte
+    pl = const_array_len(ctx, b.origin(W0[0][1]["args"][1]))
+    okp = pl is not None and pl[0] == 1
+    rep.check("R3.4", "placeholder", okp, "the size placeholder must be exactly one byte written first (found %s)" % fmt_origin(b.origin(W0[0][1]["args"][1])), b.loc(W0[0][1]["line"]),
+              sample={"placeholder": fmt_origin(b.origin(W0[0][1]["args"][1])), "bytes": pl[0] if pl else None})
+    tr = b.try_of_call(EL[0][0])
+    if form_a:
+        order = [W0[0][0], P[0][0], POS[0][0], EL[0][0], SP[0][0], WA[0][0], INTO[0][0]]
+    else:
+        order = [W0[0][0], P[0][0], POS[0][0], EL[0][0], INTO[0][0], IDX[0][0]]
     okd = all(b.dominates(order[i], order[i + 1]) for i in range(len(order) - 1))
-    rep.check("R3.4", "order", okd, "required order placeholder -> Packet::write -> position -> encode_length -> set_position(0) -> write_all -> into_inner is not enforced by dominance (blocks %s)" % order,
+    rep.check("R3.4", "order", okd, "required order placeholder -> Packet::write -> position -> encode_length -> patch of byte 0 is not enforced by dominance (blocks %s)" % order,
               b.loc(), sample={"blocks": order})
     # encode_length(self.mode(), position as usize)
     a0 = b.origin(EL[0][1]["args"][0])
@@ -206,17 +242,32 @@ def encode_order(ctx, rep):
         x = x[4]
     okl = x[0] == "call" and x[4] == POS[0][0]
     rep.check("R3.4", "length-source", okm and okl, "encode_length must be given self.mode() and the cursor position after writing (found %s, %s)" % (fmt_origin(a0), fmt_origin(a1)), b.loc(EL[0][1]["line"]))
-    # set_position(0) and write_all(&[n]) with n = encode_length(..)?
-    z = b.origin(SP[0][1]["args"][1])
-    rep.check("R3.4", "patch-at-0", z[0] == "const" and z[1] == 0, "the size byte must be patched at position 0", b.loc(SP[0][1]["line"]))
-    wo = strip_refs(b.origin(WA[0][1]["args"][1]))
-    while wo[0] == "cast":
-        wo = strip_refs(wo[4])
-    tr = b.try_of_call(EL[0][0])
-    okn = wo[0] == "agg" and wo[1][0] == "array" and len(wo[2]) == 1 and tr is not None and any(c[4] == tr[0] for c in origin_calls(wo[2][0]))
-    rep.check("R3.4", "patch-value", okn, "exactly the byte returned by encode_length must be written at position 0 (found %s)" % fmt_origin(wo), b.loc(WA[0][1]["line"]), sample={"patched": fmt_origin(wo)})
-    # errors propagated
-    for nm, site in (("packet-write", P[0]), ("encode_length", EL[0]), ("patch", WA[0])):
+    if form_a:
+        z = b.origin(SP[0][1]["args"][1])
+        rep.check("R3.4", "patch-at-0", z[0] == "const" and z[1] == 0, "the size byte must be patched at position 0", b.loc(SP[0][1]["line"]))
+        wo = strip_refs(b.origin(WA[0][1]["args"][1]))
+        while wo[0] == "cast":
+            wo = strip_refs(wo[4])
+        okn = wo[0] == "agg" and wo[1][0] == "array" and len(wo[2]) == 1 and tr is not None and any(c[4] == tr[0] for c in origin_calls(wo[2][0]))
+        rep.check("R3.4", "patch-value", okn, "exactly the byte returned by encode_length must be written at position 0 (found %s)" % fmt_origin(wo), b.loc(WA[0][1]["line"]), sample={"patched": fmt_origin(wo)})
+        sites = (("packet-write", P[0]), ("encode_length", EL[0]), ("patch", WA[0]))
+    else:
+        ibb, it = IDX[0]
+        z = b.origin(it["args"][1])
+        rep.check("R3.4", "patch-at-0", z[0] == "const" and z[1] == 0, "the size byte must be patched at index 0 (found %s)" % fmt_origin(z), b.loc(it["line"]))
+        dest = it["dest"]["l"]
+        stores = [(i, st) for i, bl in enumerate(b.blocks) for st in bl["stmts"]
+                  if st["k"] == "assign" and st["place"]["l"] == dest and st["place"]["p"] == ["deref"]]
+        okn = False
+        found = None
+        if len(stores) == 1 and stores[0][1]["rv"]["k"] == "use":
+            vo = b.origin(stores[0][1]["rv"]["x"])
+            found = fmt_origin(vo)
+            okn = tr is not None and any(c[4] == tr[0] for c in origin_calls(vo)) and b.dominates(ibb, stores[0][0])
+        rep.check("R3.4", "patch-value", okn, "exactly the byte returned by encode_length must be stored at index 0 (found %s)" % found, b.loc(it["line"]), sample={"patched": found})
+        sites = (("packet-write", P[0]), ("encode_length", EL[0]))
+    for nm, site in sites:
         t = b.try_of_call(site[0])
         rep.check("R3.4", "propagates:%s" % nm, t is not None and b.ret_kinds(t[3]) == {"residual"}, "the error of %s must be returned" % nm, b.loc(site[1]["line"]), nontrivial=False)
+    # the returned frame is that buffer
     rep.floor("R3.4", 7)
